@@ -85,18 +85,21 @@ def configs(tier):
         for P in (1, 2):
             out.append((mode, False, P, 3, 'S', 2, 1, 2))
             out.append((mode, False, P, 3, 'C', 1, -1, 2))
-    for mode in ('raise', 'cancel'):
-        out.append((mode, True, 2, 4, 'S', 1, 1, 1))
+    out.append(('cancel', True, 2, 4, 'S', 1, 1, 1))
     for P in (1, 2, 3):
         out.append(('online', True, P, 3, 'O4c', 2, -2, 2))     # with Task.cancel() steps and own CancelledError
     out.append(('online', True, 2, 3, 'O5', 2, -1, 1))
+    # external contention: another client of the same semaphore + pool.call issued from outside the body (values only)
+    out.append(('online', True, 1, 3, 'O5x', 0, -1, 0))
     return out
 
 
 def first_steps(n, fam, omax):
     """valid codes for the first symbolic step of an online program (one shard each)"""
+    if 'x' in fam:
+        return [0, 2, 4, 4 + 4 * n + 1, 4 + 4 * n + 3, 4 + 4 * n]
     out = [0, 1, 2, 3] + [4 + o for o in range(omax + 1)]
-    if fam.endswith('c'):
+    if 'c' in fam:
         out.append(4 + 3 * n)
     out.append(4 + 4 * n)
     return out
@@ -109,7 +112,7 @@ def run(R):
     pct = 400 if quick else 1300
     max_rounds = 10
     cfgs = configs(R.tier)
-    R.bounds = {'workers': '3' if quick else '3 (all configurations), 4 (permit-holding caller, P=2, raise / cancel_on_error, '
+    R.bounds = {'workers': '3' if quick else '3 (all configurations), 4 (permit-holding caller, P=2, cancel_on_error, '
                                               'no outer cancellation, two-valued outcomes)',
                 'parallelism_P': '1..2 (online programs in thorough: 1..3)',
                 'online_program': ('call(w0) then 4 symbolic steps from {call next, wait(first unfinished), leave, raise in '
@@ -118,7 +121,9 @@ def run(R):
                                    'task, drain mode none / quiescent / one tick, P=1' if quick else
                                    'call(w0) then 4 symbolic steps incl. resolve with own CancelledError and Task.cancel() on '
                                    'a returned task, drain mode none / quiescent / one tick, P=1..3; and 5 symbolic steps '
-                                   'without Task.cancel(), drain mode none / quiescent, P=2') +
+                                   'without Task.cancel(), drain mode none / quiescent, P=2; and P=1 with 5 steps from {call, '
+                                   'leave, resolve with value, an external client of the same semaphore acquires / releases, '
+                                   'pool.call issued from outside the body while the exit has not returned}') +
                                   '; afterwards the body leaves (if it has not) and every remaining future gets its value', 'resolutions': 'each worker future resolved exactly once, any order',
                 'outcomes': 'value / exception / worker ends with its own CancelledError (family S; family C: value / '
                             'exception' + ('' if quick else ', three-valued for permit-holding P=2') + ')',
@@ -220,7 +225,7 @@ def run(R):
                 if args is None:
                     raise HarnessError(f'cannot parse CrossHair counterexample: {msg}')
                 if fam.startswith('O'):
-                    k = int(fam[1:].rstrip('c'))
+                    k = int(fam[1:].rstrip('cx'))
                     rep = {'family': 'O', 'mode': mode, 'holder': holder, 'P': P, 'n': n,
                            'steps': [lo] + [args[f'a{j}'] for j in range(1, k)],
                            'drains': [args['dm']] * k if dmax < 0 else [args[f'd{j}'] for j in range(k)],
@@ -274,10 +279,10 @@ def run(R):
         mode, holder, P, n, lo, hi, fam, omax, dmax, umax = s
         famtxt = 'no outer cancel' if fam == 'S' else 'caller cancelled at a symbolic point'
         if fam.startswith('O'):
-            kk = int(fam[1:].rstrip('c'))
+            kk = int(fam[1:].rstrip('cx'))
             name0 = (f'online program, P={P}, N={n}, call(w0) then {kk} symbolic steps starting with '
                      f'"{H.describe_program(n, [lo])[1] if lo != 4 + 4 * n else "end"}"'
-                     f'{" (incl. Task.cancel steps)" if fam.endswith("c") else ""}, outcomes 0..{omax}: all aspects')
+                     f'{" (incl. Task.cancel steps)" if "c" in fam else ""}{" (external semaphore client + outside pool.call)" if "x" in fam else ""}, outcomes 0..{omax}: all aspects')
         name = name0 + (f' except {H.names(settled[s][1])}' if s in settled and settled[s][1] else '') if fam.startswith('O') else (f'{mode}, caller_holds_permit={holder}, P={P}, N={n}, {famtxt}, outcomes 0..{omax}, resolve orders '
                 f'{lo}..{hi - 1}: all aspects'
                 + (f' except {H.names(settled[s][1])}' if s in settled and settled[s][1] else ''))
